@@ -304,6 +304,9 @@ fn op_kind(o: &Op) -> u8 {
         Op::SetTight { on } => 131 + *on as u8,
         Op::AppPubrelBig { .. } => 133,
         Op::SwapSide => 137,
+        Op::PubFailContinue { qos, .. } => 138 + qos,
+        Op::PeerPubrelRc { rc, .. } => 141 + (*rc != 0) as u8,
+        Op::PeerAfterClose { kind } => 143 + kind,
         Op::Regulate { alias, .. } => 134 + (*alias != 0) as u8 + (*alias & 0x80 != 0) as u8,
     }
 }
@@ -909,7 +912,7 @@ fn inject_outcome(cfg: &Cfg, ops: &[Op], at: usize, pkt: &crate::wire::Pkt) -> O
     for (i, op) in ops.iter().enumerate() {
         if i == at && !b.w.failed() {
             // only a call that the gate table refuses is injected
-            if matches!(b.w.expect_send(pkt), Expect::Refuse(_)) {
+            if !b.w.lenient && matches!(b.w.expect_send(pkt), Expect::Refuse(_)) {
                 let n = b.w.trace.as_ref().unwrap().len();
                 let evs = b.w.send(pkt);
                 b.w.trace.as_mut().unwrap().truncate(n);
